@@ -502,7 +502,9 @@ goes round and sets the next read deadline. -/
 def handleRequest (cfg : Config) (srv : Server) (cn : Conn) (r : Request) : Server × Resp :=
   let (srv1, res) := connInner cfg srv cn r
   let res' := { res with cseq := r.cseq }
-  if res.err == .fail then (closeConn srv1 cn.id, res')
+  -- (the session restores the deadlines of its connections inside the PAUSE handler, whatever the
+  -- handler's error: `arm` comes first in both branches)
+  if res.err == .fail then (closeConn (arm srv srv1 cn.id) cn.id, res')
   else (arm srv (setMode srv1 cn.id res.err) cn.id, res')
 
 /-- something that is not a request arrives on a connection: an RTSP response always ends the read
